@@ -1079,6 +1079,7 @@ class Interp:
         node = None
         mode = None
         supp = None
+        extra = ()
         for a in args:
             if isinstance(a, Ref):
                 a = self.load(a)
@@ -1089,7 +1090,9 @@ class Interp:
                 md = a.fields[0]
                 mode = md.variant if isinstance(md, Agg) and md.variant else None
                 supp = a.fields[1].v if isinstance(a.fields[1], Const) else None
-        m.events.append(('convert', target.short, node if node is not None else TOP, mode, supp))
+                # further boolean fields of the context (e.g. after_hash), by position
+                extra = tuple(f.v if isinstance(f, Const) else None for f in a.fields[2:])
+        m.events.append(('convert', target.short, node if node is not None else TOP, mode, supp) + ((extra,) if extra else ()))
         return Doc((('conv', target.short, node if node is not None else TOP, mode, supp),))
 
     # ------------------------------------------------------------------ extern models
